@@ -90,8 +90,9 @@ const CONTEXTS: &[(&str, &str, bool)] = &[
     ("#( : mf9", "; mf9 #)", false), ("#( true if", "then #)", false), ("#( false if", "then 6 #)", false), ("#( 2 0 do", "loop #)", false), ("#( [ 1", "] #)", false), ("[ #(", "#) ]", true),
 ];
 
-/// known finding [require-in-meta]: a file pulled in by `require` inside a meta block stays in the list of included
-/// files when the block closes and the words it defined are purged, so a later `require` of it is skipped
+/// a file pulled in by `require` inside a meta block: when the block closes the words it defined are purged, and the
+/// file is no longer "included" either — a later `require` loads it again (repair of /repo: it used to stay on the list,
+/// the later `require` was skipped and its words were unknown)
 fn require_in_meta(ctx: &mut Ctx) {
     let dir = crate::lib_files(&ctx.scratch);
     for (k, tail) in ["1", "libword1", "libword1 2 +"].iter().enumerate() {
@@ -104,8 +105,26 @@ fn require_in_meta(ctx: &mut Ctx) {
         let mut y = fresh();
         let _ = apply(&mut y, &Op::Eval("1 drop".to_string()));
         let e2 = apply(&mut y, &Op::Eval(b.clone()));
-        ctx.check(r1 == "ok" && r2 == e2, || format!("[require-in-meta] C11 `{}` then `{}` (#{})", a, b, k), || format!("ok, then {}", e2), || format!("{}, then {}", r1, r2));
+        ctx.check(r1 == "ok" && r2 == e2, || format!("C11 `{}` then `{}` (#{})", a, b, k), || format!("ok, then {}", e2), || format!("{}, then {}", r1, r2));
         ctx.tag("kind:require-in-meta");
+    }
+    // a block that is closed from inside an included text: that text is still being read and stays a source — what
+    // fails in the rest of it is still located in it
+    {
+        let g = format!("{}/closes-a-block.xeh", dir);
+        std::fs::write(&g, "1 #) libword9\n").unwrap();
+        let mut x = fresh();
+        let r = apply(&mut x, &Op::Eval(format!("#( include \"{}\" 5", g)));
+        let loc = x.last_err_location().map(|l| (l.filename.to_string(), l.line, l.col, l.token.to_string()));
+        ctx.check(r.starts_with("rej UnknownWord") && loc == Some((g.clone(), 0, 5, "libword9".to_string())),
+            || format!("C11 `#( include \"{}\" 5` where the file is `1 #) libword9`", g), || "rejected: unknown word libword9 at 1:6 of that file".into(), || format!("{} at {:?}", r, loc));
+        // … and a file required by an inner block only is gone with the inner block
+        let mut z = fresh();
+        let r1 = apply(&mut z, &Op::Eval(format!("#( #( require \"{}/lib1.xeh\" libword1 #) 1 + #)", dir)));
+        let r2 = apply(&mut z, &Op::Eval(format!("require \"{}/lib1.xeh\" libword1", dir)));
+        let top: Vec<String> = (0..z.data_depth()).map(|i| z.get_data(i).map(canon::cell).unwrap_or_default()).collect();
+        ctx.check(r1 == "ok" && r2 == "ok" && top == vec!["i101".to_string(), "i102".to_string()], || "C11 a file required by an inner block, then required again outside".to_string(),
+            || "ok ok [101, 102]".into(), || format!("{} {} {:?}", r1, r2, top));
     }
 }
 
